@@ -239,7 +239,7 @@ def worker_jw(case, led):
     h, e = F.integrals(k, kind, rng)
     if not np.any(h) and not np.any(e):
         e[(0,) * 4] = 0.5       # the zero operator is outside the domain (Model refuses an empty term list)
-    rep = {"norb": k, "kind": kind, "h": jarr(h), "eri": jarr(e) if k <= 2 else "regenerate: vk.specs.c17.integrals(k, kind, rng)",
+    rep = {"norb": k, "kind": kind, "h": jarr(h), "eri": jarr(e),
            "rng": f"props.C17._rng({seed}, 'jw', {k}, '{kind}', {idx})", "seed": seed,
            "how": "sh, aseri = h_qc.int_to_h(h, eri); basis, terms = h_qc.qc_model(sh, aseri, stacked, conserve_qn); compare "
                   "vk.specs.chain.dense(Mpo(Model(basis, terms))) with vk.specs.c17.ref_spatial(h, eri)"}
@@ -270,7 +270,7 @@ def worker_raw(case, led):
     R = F.ref_spin_orbital(sh, g)
     scale = max(1.0, amax(R))
     fields = {"nsorb": n, "raw": True}
-    rep = {"nsorb": n, "conserving": conserving, "h1e": jarr(sh), "h2e": jarr(g) if n <= 3 else "regenerate: vk.specs.c17.raw_spin_tensors",
+    rep = {"nsorb": n, "conserving": conserving, "h1e": jarr(sh), "h2e": jarr(g) if n <= 4 else "regenerate: vk.specs.c17.raw_spin_tensors(n, rng, conserving)",
            "rng": f"props.C17._rng({seed}, 'raw', {n}, {conserving}, {idx})", "seed": seed,
            "expected": "sum h1e[p,q] a+_p a_q + sum h2e[p,q,r,s] a+_p a+_q a_r a_s (vk.specs.c17.ref_spin_orbital)"}
     Ds = {}
@@ -386,7 +386,7 @@ def worker_swap(case, led):
                 "how": "model = props.C17.build_model(family, n, rng)[0]; mpo = Mpo(model); for i in sequence: swap basis[i], basis[i+1]; "
                        "mpo.try_swap_site(Model(basis, model.ham_terms), swap_jw); compare vk.specs.chain.dense(mpo) before/after"}
     if info["fermi"]:
-        base_rep.update(h=jarr(info["h"]), eri=jarr(info["eri"]) if n <= 4 else "regenerate")
+        base_rep.update(h=jarr(info["h"]), eri=jarr(info["eri"]))
     else:
         base_rep.update(terms=[repr(t) for t in model.ham_terms])
     m0 = Mpo(model)
